@@ -2,6 +2,7 @@ package fam
 
 import (
 	"fmt"
+	"math"
 	"sort"
 	"strings"
 
@@ -28,6 +29,8 @@ type Exp struct {
 	Chars bool // the length must count characters
 	// Optional: the Go type chosen under --min-sized-ints already implies this bound in this world; the check may be dropped
 	Optional bool
+	// NeedNilGuard: the measured value is a slice that is nil for an absent or null property; the check must be guarded by != nil
+	NeedNilGuard bool
 }
 
 func (e Exp) key() string {
@@ -302,6 +305,10 @@ func (fm *FileModel) CompareRejects(w *World, m *skel.Method, field string, exp 
 				}
 			}
 		}
+		if e.NeedNilGuard && !isPtr && !r.NilGuard {
+			issues = append(issues, Issue{Rule: "A-NILG", Construct: "nil slice measured against a lower length limit (" + strings.SplitN(e.Kw, "@", 2)[0] + ")",
+				Msg: fmt.Sprintf("%s: `%s` is not guarded by a != nil test: an absent or null array (a nil slice, length 0) is rejected by %s although only a present array is constrained", what, r.Cond, e.Kw)})
+		}
 		// nil discipline
 		if e.Kind != "null" {
 			if isPtr && !(r.Deref && r.NilGuard) {
@@ -420,11 +427,55 @@ func (w *World) intCell(a *absint.Atom) (lo, hi float64, ok bool) {
 		return 0, 0, false
 	}
 	lo, hi = c.Lo, c.Hi
-	if c.LoOpen {
+	if lo != math.Floor(lo) {
+		lo = math.Ceil(lo)
+	} else if c.LoOpen {
 		lo++
 	}
-	if c.HiOpen {
+	if hi != math.Floor(hi) {
+		hi = math.Floor(hi)
+	} else if c.HiOpen {
 		hi--
+	}
+	if lo <= -two63 || hi >= two63 || lo > hi {
+		return lo, hi, false
+	}
+	return lo, hi, true
+}
+
+// admCell is the range, over the atom's cell, of the least (lower=true) or greatest integer a bound with that limit admits.
+// An integral limit b admits b itself (inclusive) or its neighbour (exclusive); a fractional limit admits ceil(b) upwards /
+// floor(b) downwards whatever the exclusivity. ok=false: unbounded, beyond 64 bits, or no value of the stated kind in the cell.
+func (w *World) admCell(a *absint.Atom, lower, excl bool) (lo, hi float64, ok bool) {
+	if a.Facts["integral"] != "no" {
+		lo, hi, ok = w.intCell(a)
+		if ok && excl {
+			if lower {
+				lo, hi = lo+1, hi+1
+			} else {
+				lo, hi = lo-1, hi-1
+			}
+		}
+		return lo, hi, ok
+	}
+	c, have := w.Cells[a.ID]
+	if !have || math.IsInf(c.Lo, 0) || math.IsInf(c.Hi, 0) {
+		return 0, 0, false
+	}
+	isInt := func(x float64) bool { return x == math.Floor(x) }
+	if c.Lo == c.Hi && isInt(c.Lo) {
+		return 0, 0, false
+	}
+	if lower {
+		lo, hi = math.Ceil(c.Lo), math.Ceil(c.Hi)
+		if isInt(c.Lo) {
+			lo = c.Lo + 1
+		}
+	} else {
+		lo, hi = math.Floor(c.Lo), math.Floor(c.Hi)
+		if isInt(c.Hi) {
+			hi = c.Hi - 1
+		}
 	}
 	if lo <= -two63 || hi >= two63 || lo > hi {
 		return lo, hi, false
@@ -459,7 +510,7 @@ func (w *World) SizedOracle(s *Spec, goType string, exp []Exp, what string) (out
 		}
 		al, ah, ok1 := w.intCell(a)
 		bl, bh, ok2 := w.intCell(b)
-		if !ok1 || !ok2 {
+		if !ok1 || !ok2 || a.Facts["integral"] != "yes" || b.Facts["integral"] != "yes" {
 			return exp, nil, true
 		}
 		switch w.rel(a, b) {
@@ -478,7 +529,7 @@ func (w *World) SizedOracle(s *Spec, goType string, exp []Exp, what string) (out
 		}
 	}
 	for _, a := range s.Atoms {
-		if a != nil && a.Kind == "Float" && a.Facts["integral"] != "yes" && a.Name != "multipleOf" && a.Name != "default" {
+		if a != nil && a.Kind == "Float" && a.Facts["integral"] != "yes" && a.Facts["integral"] != "no" && a.Name != "multipleOf" && a.Name != "default" {
 			return exp, nil, true
 		}
 	}
@@ -489,36 +540,32 @@ func (w *World) SizedOracle(s *Spec, goType string, exp []Exp, what string) (out
 		if e.Kind != "cmp" || e.Atom == nil {
 			continue
 		}
-		cl, ch, ok := w.intCell(e.Atom)
-		if !ok {
-			return exp, nil, true
-		}
 		switch e.Kw {
 		case "lower bound":
 			hasLo = true
 			excl := e.Op == "<="
-			implied, least := ch <= T.min, cl
-			if excl {
-				implied, least = ch < T.min, cl+1
+			cl, ch, ok := w.admCell(e.Atom, true, excl)
+			if !ok {
+				return exp, nil, true
 			}
-			e.Optional = implied
-			effLo = least
-			if least < T.min {
+			e.Optional = ch <= T.min
+			effLo = cl
+			if cl < T.min {
 				issues = append(issues, Issue{Rule: "A-SIZED", Construct: "chosen type cannot hold the smallest admitted value",
-					Msg: fmt.Sprintf("%s: the lower bound may be as small as %v (exclusive=%v) but %s starts at %v: admitted values cannot be decoded", what, cl, excl, T.name, T.min)})
+					Msg: fmt.Sprintf("%s: the smallest admitted integer may be %v (exclusive=%v, fractional=%v) but %s starts at %v: admitted values cannot be decoded", what, cl, excl, e.Atom.Facts["integral"] == "no", T.name, T.min)})
 			}
 		case "upper bound":
 			hasHi = true
 			excl := e.Op == ">="
-			implied, most := cl >= T.max, ch
-			if excl {
-				implied, most = cl > T.max, ch-1
+			cl, ch, ok := w.admCell(e.Atom, false, excl)
+			if !ok {
+				return exp, nil, true
 			}
-			e.Optional = implied
-			effHi = most
-			if most > T.max {
+			e.Optional = cl >= T.max
+			effHi = ch
+			if ch > T.max {
 				issues = append(issues, Issue{Rule: "A-SIZED", Construct: "chosen type cannot hold the largest admitted value",
-					Msg: fmt.Sprintf("%s: the upper bound may be as large as %v (exclusive=%v) but %s ends at %v: admitted values cannot be decoded", what, ch, excl, T.name, T.max)})
+					Msg: fmt.Sprintf("%s: the largest admitted integer may be %v (exclusive=%v, fractional=%v) but %s ends at %v: admitted values cannot be decoded", what, ch, excl, e.Atom.Facts["integral"] == "no", T.name, T.max)})
 			}
 		}
 	}
